@@ -337,6 +337,8 @@ def grpcToHttp (c : Nat) : Nat :=
   else if c = 14 then 503 else if c = 16 then 401 else 500
 
 inductive GrpcOutcome where
+  /-- the provider flagged the ammo invalid (a line it could not decode, `continueonerror`): nothing is sent -/
+  | invalidAmmo
   /-- `ammo.Call` is not among the reflected methods -/
   | unknownMethod
   /-- `json.Marshal(ammo.Payload)` failed -/
@@ -348,6 +350,7 @@ inductive GrpcOutcome where
   deriving Repr, DecidableEq, Inhabited
 
 def grpcProto : GrpcOutcome → Nat
+  | .invalidAmmo => 0
   | .unknownMethod => 0
   | .marshalErr => 0
   | .badPayload => 400
